@@ -917,6 +917,28 @@ def main_options_stage(R, tier):
                 if listed('\tUnused options: ') != want_unused or listed('\tOverridden options: ') != E.options.overrides():
                     R.violation('C17: Droop.main report header for %s: unused %s (expected %s), overridden %s (expected %s)' % (
                         opts, listed('\tUnused options: '), want_unused, listed('\tOverridden options: '), E.options.overrides()), dict(options={k: str(v) for k, v in opts.items()}))
+        # the rule named by the ballot file alone (no rule from the caller): the driver counts exactly what the library counts
+        for rule in drive.RULES:
+            with open(pth, 'w') as fh:
+                fh.write(optreplay.BLT % ('[droop rule=%s]' % rule))
+            try:
+                E = drive.Election(drive.ElectionProfile(path=pth), {})
+                with contextlib.redirect_stdout(io.StringIO()):
+                    E.count()
+                want = E.report() + E.dump()
+            except Exception:
+                continue
+            try:
+                with contextlib.redirect_stdout(io.StringIO()):
+                    out = Droop.main(dict(path=pth, dump=True))
+            except Exception as e:
+                out = 'EXC ' + type(e).__name__
+            n += 1
+            R.cov['traces_validated_against_impl'] += 1
+            if out != want:
+                got_rule = next((l for l in out.split('\n') if l.startswith('\tRule:')), out[:60])
+                R.violation('C17: Droop.main with the rule named only in the ballot file ([droop rule=%s]) does not report the count of that rule: %s' % (rule, got_rule.strip()),
+                            dict(options=dict(path='<file with [droop rule=%s]>' % rule, dump=True)))
     finally:
         os.unlink(pth)
     R.stage('Droop.main report header vs option layers', runs=n)
@@ -1016,6 +1038,9 @@ def check_c20(tier):
     assert DROOP_BLT != history.BLTS[0] and DROOP_BLT2 != history.BLTS[2]
     shared = [(o, lp, ([history.EQ_BLT] if o['rule'] in ('meek', 'warren') else []) + [history.BLTS[0]]) for (o, lp) in
               history.TARGET_CONFIGS + [({'rule': 'meek', 'arithmetic': 'fixed', 'precision': 4}, None), ({'rule': 'warren', 'arithmetic': 'fixed', 'precision': 3}, None)]]
+    # ... and files with one line per ballot paper (repeated rankings)
+    DUP_BLT = '4 2 [tie 3 1 2 4] 1 1 2 0 1 1 2 0 1 1 2 0 1 2 3 0 1 2 3 0 1 2 3 0 2 3 0 1 4 1 0 1 4 1 0 1 2 0 0 "c1" "c2" "c3" "c4" "t"'
+    shared += [(o, lp, [DUP_BLT]) for (o, lp) in history.TARGET_CONFIGS[::3]]
     shared += [({'rule': 'wigm'}, None, [DROOP_BLT, DROOP_BLT2]), ({'rule': 'meek', 'arithmetic': 'fixed'}, None, [DROOP_BLT2]), ({'rule': 'scotland'}, None, [DROOP_BLT])]
     for (o, lp, blts_) in shared:
         for b in blts_:
@@ -1040,6 +1065,42 @@ def check_c20(tier):
             ob.update(obs)
             items.append((dict(rel='C20', a=a, b=bb, map=list(range(1, a['nc'] + 1)), obs=ob, unit=0), info))
     R.cov['shared_profile_recounts'] = nshared
+    # the command-line driver called repeatedly in one process: the same PATH holding a different election each time
+    import tempfile, importlib, io, contextlib
+    Droop = importlib.import_module('Droop')
+    tmpd = tempfile.mkdtemp(prefix='vhist-')
+    nmain = 0
+    try:
+        pa, pb = os.path.join(tmpd, 'election.blt'), os.path.join(tmpd, 'other.blt')
+        for rule in ('wigm', 'meek', 'scotland', 'qpq'):
+            outs = []
+            for k, b in enumerate([history.BLTS[0], history.BLTS[2], history.BLTS[1], history.BLTS[0]]):
+                for pth in (pa, pb):
+                    with open(pth, 'w') as fh:
+                        fh.write(b)
+                o = dict(rule=rule, dump=True)
+                if rule in ('wigm', 'meek'):
+                    o.update(arithmetic='fixed', precision=4)
+                with contextlib.redirect_stdout(io.StringIO()):
+                    try:
+                        ra = Droop.main(dict(o, path=pa))
+                        rb = Droop.main(dict(o, path=pb)) if k == 0 else None
+                    except Exception as e:
+                        ra, rb = 'EXC ' + type(e).__name__, None
+                E = drive.Election(drive.ElectionProfile(data=b), {kk: v for kk, v in o.items() if kk != 'dump'})
+                with contextlib.redirect_stdout(io.StringIO()):
+                    E.count()
+                want = E.report() + E.dump()
+                nmain += 1
+                R.cov['evaluations'] += 1
+                if ra != want:
+                    R.violation('C20: Droop.main on a path whose file was rewritten between calls reports a different election (call %d, rule %s)' % (k + 1, rule),
+                                dict(blt=b, options=o, call=k + 1))
+                    break
+    finally:
+        import shutil
+        shutil.rmtree(tmpd, ignore_errors=True)
+    R.cov['driver_calls_on_a_rewritten_path'] = nmain
     pair_stage(R, prop, items, known)
     R.cov['histories'] = nh
     R.cov['targets'] = len(targets)
